@@ -39,6 +39,28 @@ Theorem classify_ok_rs_aio : classify_ok rs_aio_send.
 Proof. exact classify_ok_rs_aio. Qed.
 Print Assumptions classify_ok_rs_aio.
 
+(* ... and the size boundary is exact: with the serializer's length [msize] and acceptance [munser] as oracles and
+   the configured / negotiated [limit], a serializable message of length <= limit is SENT by each real send()
+   (limit itself included), a longer one raises PayloadExceededError.  (ws: limit = maxMessagePayloadSize, 0 = none;
+   RawSocket: the peer's announced maximum, always > 0.)  ws_send / rs_tx_send / rs_aio_send above are these
+   functions at the abstract sizes 1 (fits) and 2 (oversized) against the limit 1. *)
+Theorem classify_ok_ws_boundary : forall msize munser limit m, 0 < limit ->
+  ws_send_at msize munser limit m = if munser m then SerErr else if msize m <=? limit then Sent else Exceeded.
+Proof. exact ws_boundary. Qed.
+Print Assumptions classify_ok_ws_boundary.
+Theorem classify_ok_ws_unlimited : forall msize munser m,
+  ws_send_at msize munser 0 m = if munser m then SerErr else Sent.
+Proof. exact ws_no_limit. Qed.
+Print Assumptions classify_ok_ws_unlimited.
+Theorem classify_ok_rs_tx_boundary : forall msize munser limit m, 0 < limit ->
+  rs_tx_send_at msize munser limit m = if munser m then SerErr else if msize m <=? limit then Sent else Exceeded.
+Proof. exact rs_tx_boundary. Qed.
+Print Assumptions classify_ok_rs_tx_boundary.
+Theorem classify_ok_rs_aio_boundary : forall msize munser limit m,
+  rs_aio_send_at msize munser limit m = if munser m then SerErr else if msize m <=? limit then Sent else Exceeded.
+Proof. exact rs_aio_boundary. Qed.
+Print Assumptions classify_ok_rs_aio_boundary.
+
 (* The hypothesis classify_ok is needed: the two RawSocket send() as they were before /repo 4bb5bcbc / ad1f12fb
    (raw serializer exception; ValueError from sendString) lose the terminal reply. *)
 Theorem C10_classify_ok_needed_unserializable : forall ser_exn ecls,
@@ -81,7 +103,7 @@ Print Assumptions C10_progress_before_terminal_refuted.
    before the outcome of the reply callbacks; (2) the later ordering is entirely up to user code: *)
 Theorem C10_progress_before_terminal_partial : forall classify ecls fl s req reg args caller rp b d,
   joined s = true -> amem req (invs s) = false -> alookup reg (regs s) = Some d ->
-  (fl = Tx \/ r_coro d = false) ->
+  (fl = Tx \/ defers d = false) -> gate_of d = None ->
   exists s' body cb,
     step classify ecls fl s (OInvocation req reg args caller rp b) =
       (s', OAccepted (nextk s) req reg args caller rp (r_details d)
@@ -90,7 +112,7 @@ Theorem C10_progress_before_terminal_partial : forall classify ecls fl s req reg
 Proof. exact progress_sync_before_terminal. Qed.
 Print Assumptions C10_progress_before_terminal_partial.
 Theorem C10_progress_closure_unguarded : forall classify ecls fl s k c p,
-  alookup k (calls s) = Some c -> c_clos c = true -> c_st c = CDone -> up s = true ->
+  alookup k (calls s) = Some c -> c_clos c = true -> c_gate c = None -> c_st c = CDone -> up s = true ->
   classify (MYield (c_req c) false p true) = Sent ->
   step classify ecls fl s (OProgress k p) = (s, [OSent (MYield (c_req c) false p true)]).
 Proof. exact progress_closure_unguarded. Qed.
@@ -134,6 +156,19 @@ Theorem C10_interrupt_unknown_ignored : forall classify ecls fl s req,
 Proof. exact interrupt_unknown. Qed.
 Print Assumptions C10_interrupt_unknown_ignored.
 
+(* Arguments that do not fit the endpoint: they do not bind to its signature (TypeError from the call, with or
+   without check_types), or -- only with register(..., check_types=True) -- contradict a type hint (TypeCheckError,
+   wamp.error.type_check_error): the body is NOT entered and the invocation is answered by exactly one ERROR.
+   For arguments that fit, check_types is invisible: C10_args_fidelity_step holds for every r_check. *)
+Theorem C10_unfit_arguments_rejected : forall classify ecls s req reg args caller rp b d e,
+  classify_ok classify -> up s = true -> joined s = true -> amem req (invs s) = false ->
+  alookup reg (regs s) = Some d -> gate_of d = Some e ->
+  exists s', step classify ecls Tx s (OInvocation req reg args caller rp b) =
+      (s', [OAccepted (nextk s) req reg args caller rp (r_details d); OSent (MError req (uri_of ecls e) PText)])
+    /\ amem req (invs s') = false.
+Proof. exact gated_call_rejected_tx. Qed.
+Print Assumptions C10_unfit_arguments_rejected.
+
 (* Over every history: whenever an endpoint body is entered, it is with exactly the arguments (request, registration,
    args/kwargs token) of an INVOCATION accepted before under the same call index, and with CallDetails
    (caller, progress callable iff receive_progress) iff the registration asked for details. *)
@@ -150,7 +185,7 @@ Print Assumptions C10_args_fidelity.
    step enters an endpoint.  (asyncio `async def` endpoints: next theorem.) *)
 Theorem C10_args_fidelity_step : forall classify ecls fl s req reg args caller rp b d,
   joined s = true -> amem req (invs s) = false -> alookup reg (regs s) = Some d ->
-  (fl = Tx \/ r_coro d = false) ->
+  (fl = Tx \/ defers d = false) -> gate_of d = None ->
   exists s' rest,
     step classify ecls fl s (OInvocation req reg args caller rp b) =
       (s', OAccepted (nextk s) req reg args caller rp (r_details d)
@@ -159,15 +194,15 @@ Theorem C10_args_fidelity_step : forall classify ecls fl s req reg args caller r
 Proof. exact args_fidelity. Qed.
 Print Assumptions C10_args_fidelity_step.
 Theorem C10_args_fidelity_aio_coroutine : forall classify ecls s req reg args caller rp b d,
-  joined s = true -> amem req (invs s) = false -> alookup reg (regs s) = Some d -> r_coro d = true ->
+  joined s = true -> amem req (invs s) = false -> alookup reg (regs s) = Some d -> defers d = true ->
   (exists s', step classify ecls Aio s (OInvocation req reg args caller rp b) =
       (s', [OAccepted (nextk s) req reg args caller rp (r_details d)])
     /\ queue s' = queue s ++ [QStep (nextk s)]
     /\ alookup (nextk s) (calls s') =
          Some {| c_req := req; c_reg := reg; c_args := args;
                  c_det := if r_details d then Some (caller, r_details d && rp) else None;
-                 c_clos := r_details d && rp; c_st := CFresh b false |})
-  /\ (forall s1 k c b1, alookup k (calls s1) = Some c -> c_st c = CFresh b1 false ->
+                 c_clos := r_details d && rp; c_st := CFresh b false; c_gate := gate_of d |})
+  /\ (forall s1 k c b1, alookup k (calls s1) = Some c -> c_st c = CFresh b1 false -> c_gate c = None ->
       exists s2 rest, run_item classify ecls s1 (QStep k) = (s2, OCalled k (c_req c) (c_reg c) (c_args c) (c_det c) :: rest)
                       /\ nocalls rest).
 Proof. exact args_fidelity_aio_coroutine. Qed.
@@ -208,3 +243,12 @@ Example C10_witness_coroutine_cancel :
     [OAccepted 0 1 100 (V 11) 7 true true; OSent (MError 1 URuntime PEmpty);
      OAccepted 1 2 100 (V 12) 7 false true; OCalled 1 2 100 (V 12) (Some (7, false)); OSent (MError 2 URuntime PEmpty)].
 Proof. vm_compute. reflexivity. Qed.
+
+(* check_types=True: a well-typed call is answered like without the wrapper (asyncio: one loop turn later, as a Task);
+   an ill-typed one gets wamp.error.type_check_error and the endpoint is not entered *)
+Example C10_witness_check_types : forall fl,
+  snd (run ws_send [] fl init h_check_types) =
+    [OAccepted 0 1 100 (V 11) 7 false true; OCalled 0 1 100 (V 11) (Some (7, false)); OSent (MYield 1 true (V 21) false);
+     OAccepted 1 2 101 (V 12) 7 false false; OSent (MError 2 UTypeCheck PText);
+     OAccepted 2 3 102 (V 13) 7 false false; OSent (MError 3 URuntime PText)].
+Proof. intros []; vm_compute; reflexivity. Qed.
